@@ -305,6 +305,94 @@ func checkC02(c *Ctx, r *Report) {
 	}
 	// ---- C02.validate
 	c.checkTagValidation(r, fns)
+	// ---- C02.all-tags: every listed tag reaches the duplicate check and the table; the only filters on the way are
+	// predicates of the tag string itself (emptiness, wildcard form)
+	c.checkAllTagsKept(r, fns)
+}
+
+// checkAllTagsKept: the append that collects a logger's tags is guarded only by conditions computed from the tag
+// string and constants — never by state shared between list entries or between loggers.
+func (c *Ctx) checkAllTagsKept(r *Report, fns []*ssa.Function) {
+	n := 0
+	for _, f := range fns {
+		eachInstr(f, func(in ssa.Instruction) {
+			call, ok := in.(*ssa.Call)
+			if !ok {
+				return
+			}
+			b, ok := call.Call.Value.(*ssa.Builtin)
+			if !ok || b.Name() != "append" {
+				return
+			}
+			sl, ok := call.Type().Underlying().(*types.Slice)
+			if !ok || !isStringType(sl.Elem()) {
+				return
+			}
+			n++
+			key := "C02.all-tags:" + fname(f)
+			var bad []string
+			for _, g := range guardsOfInstr(in) {
+				if strings.Contains(in.Block().Comment, "yield") && strings.Contains(g.If.Block().Comment, "entry") {
+					continue // compiler-inserted range-over-func state test
+				}
+				if !pureStringPredicate(g.Cond, 0) {
+					bad = append(bad, c.prov(g.Cond, &Frame{Fn: f}).String())
+				}
+			}
+			if len(bad) > 0 {
+				r.Fail(key, c.instrPos(in), "a listed tag is dropped under %v — a condition that is not a predicate of the tag string itself; the dropped tag never reaches the duplicate check (two loggers listing it are accepted) or the table", bad)
+			} else {
+				r.OK(key, "the tag list keeps every non-empty, well-formed entry (filters are predicates of the tag alone)")
+			}
+		})
+	}
+	if n == 0 {
+		r.Undecided("C02.all-tags:Refresh", "", "no collection of a logger's tag list found")
+	}
+}
+
+// pureStringPredicate: v is computed only from parameters, constants, string comparisons and strings.* calls
+// (no map/slice/field/global reads).
+func pureStringPredicate(v ssa.Value, d int) bool {
+	if d > 12 {
+		return false
+	}
+	switch x := v.(type) {
+	case *ssa.Const, *ssa.Parameter:
+		return true
+	case *ssa.BinOp:
+		return pureStringPredicate(x.X, d+1) && pureStringPredicate(x.Y, d+1)
+	case *ssa.UnOp:
+		if x.Op == token.NOT {
+			return pureStringPredicate(x.X, d+1)
+		}
+		// compiler-generated state variable of range-over-func bodies
+		if fv, ok := x.X.(*ssa.FreeVar); ok && strings.HasPrefix(fv.Name(), "jump$") {
+			return true
+		}
+		return false
+	case *ssa.Call:
+		s := x.Common().StaticCallee()
+		if s == nil || s.Object() == nil || s.Object().Pkg() == nil || s.Object().Pkg().Path() != "strings" {
+			return false
+		}
+		for _, a := range x.Call.Args {
+			if !pureStringPredicate(a, d+1) {
+				return false
+			}
+		}
+		return true
+	case *ssa.Extract:
+		return pureStringPredicate(x.Tuple, d+1)
+	case *ssa.Phi:
+		for _, e := range x.Edges {
+			if e != v && !pureStringPredicate(e, d+1) {
+				return false
+			}
+		}
+		return true
+	}
+	return false
 }
 
 func (c *Ctx) checkTagConflict(r *Report, fns []*ssa.Function, tagTable ssa.Value) {
